@@ -106,6 +106,14 @@ def records(rnd, tier):
             f = fd.field.fdata(model, m, [np.array(p, dtype=float) for p in prim])
             f = fd.field.fdata(model, m, model.prim2cons(f.data))
             with np.errstate(all="ignore"):
+                # history: the same operator was asked for another state and another CFL number just before
+                try:
+                    g_ = f.copy()
+                    for d_ in g_.data:
+                        d_ *= 1.7
+                    disc.calc_timestep(g_, cfl * 0.37)
+                except Exception:
+                    pass
                 dt = np.asarray(disc.calc_timestep(f, cfl), dtype=float) + np.zeros(n)
                 dt2 = np.asarray(disc.calc_timestep(f, cfl * 4.0), dtype=float) + np.zeros(n)
             for i in range(n):
